@@ -13,23 +13,15 @@ package command
 // Expected multiset: reference semantics in /verif/oracle computed from the CLI strings.
 
 import (
-	"bytes"
 	"context"
 	"fmt"
 	"math/rand"
-	"net"
 	"os"
 	"path/filepath"
 	"strings"
 	"testing"
 	"time"
 
-	"github.com/google/gopacket/layers"
-	"github.com/v-byte-cpu/sx/command/log"
-	"github.com/v-byte-cpu/sx/pkg/ip"
-	"github.com/v-byte-cpu/sx/pkg/scan"
-	"github.com/v-byte-cpu/sx/pkg/scan/arp"
-	"github.com/v-byte-cpu/sx/pkg/scan/tcp"
 	"verif.local/v/oracle"
 	"verif.local/v/vlab"
 )
@@ -125,13 +117,6 @@ func c01expected(c *c01case) (map[uint64]int32, bool) {
 	return exp, true
 }
 
-type c01obs struct {
-	got    map[uint64]int32
-	errs   []error
-	frames int
-	wrong  string
-}
-
 func c01run(run *vlab.Run, dir string, c *c01case) {
 	exp, ok := c01expected(c)
 	if !ok {
@@ -141,231 +126,25 @@ func c01run(run *vlab.Run, dir string, c *c01case) {
 	ctx, cancel := context.WithCancel(context.Background())
 	defer cancel()
 	rand.Seed(c.RandSeed)
-	var dst *net.IPNet
-	var err error
-	if c.Mode == "subnet" {
-		if dst, err = ip.ParseIPNet(c.Subnet); err != nil {
-			run.Violation("valid-target-rejected", fmt.Sprintf("target %q rejected: %v", c.Subnet, err), c)
-			return
-		}
-	}
-	exFile, ipFile, portsFile := "", "", ""
-	if c.Exclude != "" {
-		exFile = writeTemp(dir, "exclude.txt", c.Exclude)
-	}
-	if c.PortsFile != "" {
-		portsFile = writeTemp(dir, "ports.txt", c.PortsFile)
-	}
-	content := ""
+	spec := &scanSpec{Scan: c.Scan, Layer: c.Layer, Subnet: c.Subnet, Ports: c.Ports, PortsFile: c.PortsFile, Exclude: c.Exclude, VPN: c.VPN, Workers: c.Workers, RandSeed: c.RandSeed}
 	if c.Mode != "subnet" {
-		content = c01fileContent(c)
-		ipFile = writeTemp(dir, "targets.jsonl", content)
+		spec.HasFile, spec.FileContent, spec.Stdin = true, c01fileContent(c), c.Mode == "addrfile-stdin"
 	}
-	if c.Mode == "addrfile-stdin" {
-		ipFile = "-"
-		pr, pw, _ := os.Pipe()
-		old := os.Stdin
-		os.Stdin = pr
-		defer func() { os.Stdin = old; pr.Close() }()
-		go func() { pw.Write([]byte(content)); pw.Close() }()
-	}
-	obs := c01obs{got: map[uint64]int32{}}
-	clock := &rigClock{}
-	srcIP, srcMAC, gw := net.IPv4(192, 168, 7, 7).To4(), net.HardwareAddr{2, 0, 0, 0, 0, 7}, net.HardwareAddr{2, 0, 0, 0, 0, 1}
-	if c.VPN {
-		srcMAC = nil
-	}
-	baseRange := func(ports []*scan.PortRange) *scan.Range {
-		return &scan.Range{DstSubnet: dst, SrcIP: srcIP, SrcMAC: srcMAC, Ports: ports}
-	}
-	var reqgen scan.RequestGenerator
-	var method scan.PacketMethod
-	var rng *scan.Range
-	var generic *scan.GenericEngine
-	sc := newRecScanner(uint64(c.RandSeed), 0, 0, 0, clock)
-	fail := func(what string, err error) {
-		run.Violation("valid-spec-rejected", fmt.Sprintf("%s rejected a well-formed specification: %v: %+v", what, err, c), c)
-	}
-	switch c.Scan {
-	case "arp":
-		o := &arpCmdOpts{}
-		o.rawExcludeFile = exFile
-		if err := o.parseRawOptions(); err != nil {
-			fail("arp options", err)
-			return
-		}
-		rng = baseRange(nil)
-		method = o.newARPScanMethod(ctx)
-	case "icmp":
-		o := &icmpCmdOpts{}
-		o.rawExcludeFile, o.ipFile, o.rawIPFlags = exFile, ipFile, "DF"
-		o.ipTTL, o.ipProtocol, o.icmpType = 64, 1, 8
-		if err := o.parseRawOptions(); err != nil {
-			fail("icmp options", err)
-			return
-		}
-		o.vpnMode = c.VPN
-		if !c.VPN {
-			o.cache, o.gatewayMAC = arp.NewCache(), gw
-		}
-		rng = baseRange(nil)
-		o.scanRange = rng
-		method = o.newICMPScanMethod(ctx)
-	case "udp":
-		o := &udpCmdOpts{}
-		o.rawExcludeFile, o.ipFile, o.rawPortRanges, o.portFile, o.rawIPFlags = exFile, ipFile, c.Ports, portsFile, "DF"
-		o.ipTTL, o.ipProtocol = 64, 17
-		if err := o.parseRawOptions(); err != nil {
-			fail("udp options", err)
-			return
-		}
-		o.vpnMode = c.VPN
-		if !c.VPN {
-			o.cache, o.gatewayMAC = arp.NewCache(), gw
-		}
-		rng = baseRange(o.portRanges)
-		o.scanRange = rng
-		if c.Layer == "gen" {
-			reqgen = o.newIPPortGenerator()
-		} else {
-			method = o.newUDPScanMethod(ctx)
-		}
-	case "tcpsyn", "tcpfin", "tcpnull", "tcpxmas", "tcpflags":
-		o := &tcpCmdOpts{}
-		o.rawExcludeFile, o.ipFile, o.rawPortRanges, o.portFile = exFile, ipFile, c.Ports, portsFile
-		if err := o.parseRawOptions(); err != nil {
-			fail("tcp options", err)
-			return
-		}
-		o.vpnMode = c.VPN
-		if !c.VPN {
-			o.cache, o.gatewayMAC = arp.NewCache(), gw
-		}
-		rng = baseRange(o.portRanges)
-		o.scanRange = rng
-		if c.Layer == "gen" {
-			reqgen = o.newIPPortGenerator()
-			break
-		}
-		var fopts []tcp.PacketFillerOption
-		filter, flags := tcp.PacketFilterFunc(tcp.TrueFilter), tcp.PacketFlagsFunc(tcp.AllFlags)
-		switch c.Scan {
-		case "tcpsyn":
-			fopts = []tcp.PacketFillerOption{tcp.WithSYN()}
-			filter = func(pkt *layers.TCP) bool { return pkt.SYN && pkt.ACK }
-			flags = tcp.EmptyFlags
-		case "tcpfin":
-			fopts = []tcp.PacketFillerOption{tcp.WithFIN()}
-		case "tcpxmas":
-			fopts = []tcp.PacketFillerOption{tcp.WithFIN(), tcp.WithPSH(), tcp.WithURG()}
-		case "tcpflags":
-			fopts = []tcp.PacketFillerOption{tcpPacketFlagOptions["ack"], tcpPacketFlagOptions["rst"]}
-		}
-		method = o.newTCPScanMethod(ctx, withTCPScanName(c.Scan), withTCPPacketFillerOptions(fopts...), withTCPPacketFilterFunc(filter), withTCPPacketFlags(flags))
-	case "generic":
-		o := &genericScanCmdOpts{rawExcludeFile: exFile, ipFile: ipFile, rawPortRanges: c.Ports, portFile: portsFile, workers: c.Workers}
-		if err := o.parseRawOptions(); err != nil {
-			fail("generic options", err)
-			return
-		}
-		var args []string
-		if c.Mode == "subnet" {
-			args = []string{c.Subnet}
-		}
-		r, err := o.parseScanRange(args)
-		if err != nil {
-			fail("parseScanRange", err)
-			return
-		}
-		rng = r
-		if c.Layer == "gen" {
-			reqgen = o.newIPPortGenerator()
-		} else {
-			generic = o.newScanEngine(ctx, sc)
-		}
-	}
-	portless := c.Scan == "arp" || c.Scan == "icmp"
-	link := oracle.LinkEthernet
-	if c.VPN {
-		link = oracle.LinkRawIP
-	}
-	logger := &recLogger{clock: clock}
-	{
-		real, _ := log.NewLogger(&bytes.Buffer{}, "rig")
-		logger.inner = real
-	}
-	conf := newEngineConfig(withLogger(logger), withScanRange(rng), withExitDelay(0))
-	var rw *recRW
-	_, finished, parked := run.Watch(300*time.Second, "v-byte-cpu/sx/", func() {
-		switch {
-		case reqgen != nil:
-			reqs, err := reqgen.GenerateRequests(ctx, rng)
-			if err != nil {
-				obs.errs = append(obs.errs, err)
-				return
-			}
-			for r := range reqs {
-				if r.Err != nil {
-					obs.errs = append(obs.errs, r.Err)
-					continue
-				}
-				ip4 := r.DstIP.To4()
-				if ip4 == nil {
-					obs.wrong = fmt.Sprintf("request with non-IPv4 destination %v", r.DstIP)
-					continue
-				}
-				var a [4]byte
-				copy(a[:], ip4)
-				obs.got[oracle.Key(oracle.IPToU32(a), r.DstPort)]++
-				obs.frames++
-			}
-		case method != nil:
-			rw = newRecRW(link, uint64(c.RandSeed), 0, 0, clock)
-			_ = startScanEngine(ctx, scan.SetupPacketEngine(rw, method), conf)
-		case generic != nil:
-			_ = startScanEngine(ctx, generic, conf)
-		}
-	})
-	run.Eval(1)
-	if !finished {
-		if parked {
-			run.Violation("scan-parked", fmt.Sprintf("scan did not complete (goroutines parked): %+v", c), c)
-		} else {
-			run.Inconclusive(fmt.Sprintf("scan still running after 300 s: %+v", c))
-		}
+	b, err := buildScan(ctx, dir, spec)
+	if err != nil {
+		run.Violation("valid-spec-rejected", fmt.Sprintf("a well-formed specification was rejected: %v: %+v", err, c), c)
 		return
 	}
-	if rw != nil {
-		for _, ev := range rw.snapshot() {
-			d := oracle.Decode(ev.data, link)
-			switch {
-			case c.Scan == "arp" && d.ARP != nil && len(d.ARP.TPA) == 4:
-				var a [4]byte
-				copy(a[:], d.ARP.TPA)
-				obs.got[oracle.Key(oracle.IPToU32(a), 0)]++
-			case c.Scan == "icmp" && d.ICMP != nil:
-				obs.got[oracle.Key(oracle.IPToU32(d.IP.Dst), 0)]++
-			case c.Scan == "udp" && d.UDP != nil:
-				obs.got[oracle.Key(oracle.IPToU32(d.IP.Dst), d.UDP.DstPort)]++
-			case strings.HasPrefix(c.Scan, "tcp") && d.TCP != nil:
-				obs.got[oracle.Key(oracle.IPToU32(d.IP.Dst), d.TCP.DstPort)]++
-			default:
-				obs.wrong = fmt.Sprintf("frame on the wire is not a %s probe: %x (%v)", c.Scan, truncate(ev.data, 80), d.Problems)
-			}
-			obs.frames++
-		}
-		obs.errs = logger.snapshot()
+	obs := runScan(run, ctx, b, 300*time.Second)
+	run.Eval(1)
+	if obs.parked {
+		run.Violation("scan-parked", fmt.Sprintf("scan did not complete (goroutines parked): %+v", c), c)
+		return
 	}
-	if generic != nil {
-		sc.mu.Lock()
-		for k, n := range sc.calls64 {
-			obs.got[k] += int32(n)
-			obs.frames += n
-		}
-		sc.mu.Unlock()
-		obs.errs = logger.snapshot()
+	if obs.timeout {
+		run.Inconclusive(fmt.Sprintf("scan still running after 300 s: %+v", c))
+		return
 	}
-	_ = portless
 	// ---- oracle
 	if obs.wrong != "" {
 		run.Violation("not-a-probe", obs.wrong+fmt.Sprintf(": %+v", c), c)
@@ -387,9 +166,8 @@ func c01run(run *vlab.Run, dir string, c *c01case) {
 		k := "target-missing:" + key
 		if c.Mode == "addrfile-stdin" {
 			k = "stdin-multiport"
-			// key narrowed: only when every missing probe belongs to a port other than the first scanned
 		}
-		run.Violation(k, fmt.Sprintf("%d probes expected, %d seen; never probed: %s: %+v", total, obs.frames, desc(missing), c), c)
+		run.Violation(k, fmt.Sprintf("%d probes expected, %d seen; never probed: %s: %+v", total, len(obs.probes), desc(missing), c), c)
 	}
 	if len(extra) > 0 {
 		run.Violation("target-extra:"+key, fmt.Sprintf("probed although not in the specification (or excluded): %s: %+v", desc(extra), c), c)
@@ -400,7 +178,7 @@ func c01run(run *vlab.Run, dir string, c *c01case) {
 	if len(obs.errs) > 0 {
 		run.Violation("error-on-valid-spec:"+key, fmt.Sprintf("a well-formed specification produced %d errors, first: %v: %+v", len(obs.errs), obs.errs[0], c), c)
 	}
-	run.Count("probes_observed", int64(obs.frames))
+	run.Count("probes_observed", int64(len(obs.probes)))
 	run.Count("spec:"+c.Scan, 1)
 	run.Count("mode:"+c.Mode, 1)
 	run.Max("max_targets_in_a_spec", int64(total))
